@@ -337,6 +337,43 @@ var Variants = []Variant{
 		replaceReq(c.Provs[cs[len(cs)-1].ID], tname(p), fmt.Sprintf("I%d", p))
 		return c
 	}},
+	{"err-alias", func(d *Decl, p int) *Decl {
+		// the provider's error result is declared through an alias of error
+		if !d.Provs[p].Fallible {
+			return nil
+		}
+		c := d.Clone()
+		c.Provs[p].ErrAlias = true
+		return c
+	}},
+	{"ctx-provided", func(d *Decl, p int) *Decl {
+		// the context.Context provider p takes is supplied by ANOTHER PROVIDER of the declaration, not by the caller:
+		// an injector with Async providers then holds two contexts (its own parameter and the provided one)
+		for _, r := range d.Provs[p].Requires {
+			if r == "ctx" {
+				return nil
+			}
+		}
+		c := d.Clone()
+		c.Provs[p].Requires = append([]string{"ctx"}, c.Provs[p].Requires...)
+		c.Provs = append(c.Provs, &Prov{ID: len(c.Provs), Kind: Func, Provides: []string{"ctx"}})
+		return c
+	}},
+	{"struct-async-split", func(d *Decl, p int) *Decl {
+		// Async(Struct[..]()) with BOTH fields consumed (the second one, and the struct itself, by the last consumer)
+		cs := consumers(d, tname(p))
+		if len(cs) == 0 {
+			return nil
+		}
+		c := d.Clone()
+		s := fmt.Sprintf("S%d", p)
+		c.Structs[s] = []Field{{"F0", tname(p)}, {"F1", uname(p)}}
+		c.Provs[p].Provides[0] = "*" + s
+		q := c.Provs[cs[len(cs)-1].ID]
+		q.Requires = append(q.Requires, uname(p))
+		c.Provs = append(c.Provs, &Prov{ID: len(c.Provs), Kind: Struct, Provides: []string{"*" + s}, Async: true})
+		return c
+	}},
 	{"unreachable-async-fallible", func(d *Decl, p int) *Decl {
 		if p != 0 {
 			return nil
@@ -621,7 +658,7 @@ func Universe(tier string) []*Decl {
 	// the other providers synchronous: field reads and second results then live on a goroutine while their
 	// consumers sit on the caller's thread or on another goroutine.
 	if !thorough {
-		own := map[string]bool{"struct-ptr": true, "struct-split": true, "struct-apart": true, "struct-async": true, "multi-split": true, "bind-half": true, "struct-val": true}
+		own := map[string]bool{"struct-ptr": true, "struct-split": true, "struct-apart": true, "struct-async-split": true, "ctx-provided": true, "struct-async": true, "multi-split": true, "bind-half": true, "struct-val": true}
 		for e := uint(0); e < 1<<numEdges(4); e++ {
 			if !allReachable(4, e) || maxInDegree(4, e) > 3 {
 				continue
@@ -936,6 +973,35 @@ func LargeShapes(thorough bool) []*Decl {
 						// every provider fallible: error paths with many goroutines
 						out = append(out, custom(req, as, func(int) bool { return true }, note+" fallible"))
 					}
+				}
+			}
+		}
+	}
+	// bipartite two-level shapes: 3 input-free roots, 3 consumers each taking a non-empty subset of the roots (every
+	// combination), a sink taking the three consumers; roots Async, consumers synchronous (quick) / also all Async
+	// (thorough). These are the shapes in which the pool count is tight (as many pools as the largest antichain).
+	for m0 := 1; m0 < 8; m0++ {
+		for m1 := m0; m1 < 8; m1++ {
+			for m2 := m1; m2 < 8; m2++ {
+				if m0|m1|m2 != 7 {
+					continue // every root needed
+				}
+				req := [][]int{nil, nil, nil}
+				for _, m := range []int{m0, m1, m2} {
+					var r []int
+					for b := 0; b < 3; b++ {
+						if m&(1<<b) != 0 {
+							r = append(r, b)
+						}
+					}
+					req = append(req, r)
+				}
+				req = append(req, []int{3, 4, 5})
+				note := fmt.Sprintf("bipartite 3x3 %d%d%d", m0, m1, m2)
+				out = append(out, custom(req, func(i int) bool { return i < 3 }, never, note+" roots async"))
+				if thorough {
+					out = append(out, custom(req, func(i int) bool { return i < 6 }, never, note+" roots+consumers async"))
+					out = append(out, custom(req, func(i int) bool { return i < 3 }, func(i int) bool { return i >= 3 }, note+" roots async, rest fallible"))
 				}
 			}
 		}
